@@ -103,7 +103,7 @@ def all_cells():
             if err is None:
                 continue
             for st in (exp_state, None):
-                for ftype in (8, 11, 0x42):
+                for ftype in (8, 11, 0x42, (9, 255), (9, 510), (9, 256), (0x42, 254)):
                     for order in ("foreign-first", "foreign-after-state"):
                         for mode in ("ip", "ble"):
                             if step == "verify-M2-resume" and mode == "ip":
@@ -122,7 +122,8 @@ def build_reply(genuine_items, err, st, sub, order):
     head = [] if st is None else [(6, state_bytes(st))]
     e = [] if err is None else [(7, err)]
     if order.startswith("foreign"):
-        foreign = [(sub[0], b"\x05")]
+        # a short value, or (type, n): an n-byte value such as a certificate - 255 / 510 bytes end in a FULL fragment
+        foreign = [(sub[0], b"\x05")] if isinstance(sub[0], int) else [(sub[0][0], (bytes(range(1, 256)) * 3)[: sub[0][1]])]
         return foreign + head + e if order == "foreign-first" else head + foreign + e
     if order == "error-first":
         return head + e + others
